@@ -311,6 +311,21 @@ class Summarizer:
                     name, value = acc
                     env[name] = value
                     continue
+                # a SEARCH loop over a literal sequence (`for m in (a, b): if m is not None: return m`): unrolled - one copy of
+                # the body per item, the loop variable bound to the item - when the sequence is a display of at most 8 items
+                # once the locals are substituted and constants folded (`xs if True else xs[::-1]`)
+                if not st.orelse and self._has_exit([st]) and not any(isinstance(x, (ast.Break, ast.Continue)) for x in ast.walk(st)):
+                    try:
+                        it = fold_consts(self._subst(st.iter, env, localfns))
+                    except Exception:
+                        it = None
+                    if isinstance(it, (ast.Tuple, ast.List)) and len(it.elts) <= 8 and not any(isinstance(x, ast.Starred) for x in it.elts):
+                        unrolled: List[ast.stmt] = []
+                        for item in it.elts:
+                            unrolled.append(ast.Assign(targets=[copy.deepcopy(st.target)], value=item, lineno=getattr(st, "lineno", 0)))
+                            unrolled += copy.deepcopy(st.body)
+                        ast.fix_missing_locations(ast.Module(body=unrolled, type_ignores=[]))
+                        return self._run(unrolled + list(rest), env, localfns, k)
             if isinstance(st, (ast.For, ast.While)):
                 for name in self._assigned_names([st]):
                     env[name] = opaque("loop-assigned", ast.Constant(value=name))
@@ -648,6 +663,35 @@ class _FoldConsts(ast.NodeTransformer):
             return ast.Constant(value=not node.operand.value)
         return node
 
+    def visit_BoolOp(self, node):
+        self.generic_visit(node)
+        # literal booleans among the operands: `True and x` -> x, `False and x` -> False, `x or True` stays (x is evaluated first)
+        vals = []
+        for v in node.values:
+            if isinstance(v, ast.Constant) and isinstance(v.value, bool):
+                if isinstance(node.op, ast.And):
+                    if v.value:
+                        continue  # neutral element
+                    if not vals:
+                        return ast.Constant(value=False)
+                    vals.append(v)
+                    break
+                else:
+                    if not v.value:
+                        continue
+                    if not vals:
+                        return ast.Constant(value=True)
+                    vals.append(v)
+                    break
+            else:
+                vals.append(v)
+        if not vals:
+            return ast.Constant(value=isinstance(node.op, ast.And))
+        if len(vals) == 1:
+            return vals[0]
+        node.values = vals
+        return node
+
     def visit_IfExp(self, node):
         self.generic_visit(node)
         if isinstance(node.test, ast.Constant) and isinstance(node.test.value, bool):
@@ -680,6 +724,20 @@ class _FoldConsts(ast.NodeTransformer):
             keys = [self._key(x) if x is not None else None for x in node.value.keys]
             if k is not None and all(x is not None for x in keys) and keys.count(k) == 1:
                 return node.value.values[keys.index(k)]
+        # a literal tuple / list reversed or sliced by literal bounds: (a, b)[::-1] -> (b, a)
+        if isinstance(node.value, (ast.Tuple, ast.List)) and isinstance(node.slice, ast.Slice) and not any(isinstance(x, ast.Starred) for x in node.value.elts):
+            def lit(x):
+                if x is None:
+                    return True, None
+                if self._int(x):
+                    return True, x.value
+                if isinstance(x, ast.UnaryOp) and isinstance(x.op, ast.USub) and self._int(x.operand):
+                    return True, -x.operand.value
+                return False, None
+            oks = [lit(node.slice.lower), lit(node.slice.upper), lit(node.slice.step)]
+            if all(o for o, _v in oks):
+                elts = node.value.elts[slice(oks[0][1], oks[1][1], oks[2][1])]
+                return type(node.value)(elts=list(elts), ctx=ast.Load())
         # a literal tuple / list subscripted by a literal index: (a, b)[0] -> a
         if isinstance(node.value, (ast.Tuple, ast.List)) and self._int(node.slice) and not any(isinstance(x, ast.Starred) for x in node.value.elts):
             i = node.slice.value
@@ -844,6 +902,25 @@ class _DistributeAttr(ast.NodeTransformer):
         v = node.value
         if isinstance(v, ast.IfExp):
             return self.visit(ast.IfExp(test=v.test, body=ast.Attribute(value=v.body, attr=node.attr, ctx=node.ctx), orelse=ast.Attribute(value=v.orelse, attr=node.attr, ctx=node.ctx)))
+        return node
+
+
+    def visit_Subscript(self, node: ast.Subscript):
+        self.generic_visit(node)
+        v = node.value
+        if isinstance(v, ast.IfExp):
+            import copy as _c
+
+            return self.visit(ast.IfExp(test=v.test, body=ast.Subscript(value=v.body, slice=node.slice, ctx=node.ctx), orelse=ast.Subscript(value=v.orelse, slice=_c.deepcopy(node.slice), ctx=node.ctx)))
+        return node
+
+    def visit_Call(self, node: ast.Call):
+        self.generic_visit(node)
+        f = node.func
+        if isinstance(f, ast.IfExp):  # (a if t else b).method(args), after the attribute was distributed
+            import copy as _c
+
+            return self.visit(ast.IfExp(test=f.test, body=ast.Call(func=f.body, args=node.args, keywords=node.keywords), orelse=ast.Call(func=f.orelse, args=_c.deepcopy(node.args), keywords=_c.deepcopy(node.keywords))))
         return node
 
 
